@@ -60,7 +60,7 @@ Definition run_top (line : string) : string :=
   match words line with
   | _use :: w =>
       match parse_ty (S (List.length w * 2)) w with
-      | Some (t, []) => show_verdict (check scalar ssize sbool array_min t)
+      | Some (t, []) => show_verdict (check32 scalar ssize sbool array_min t)
       | _ => "PARSE-ERROR"
       end
   | _ => "PARSE-ERROR"
